@@ -140,105 +140,163 @@ def r2(ctx):
     gl = [t2 for _, t2 in u.calls() if callee_matches(t2, r"get_latest_for_each_author$")]
     ok = len(ins) == 1 and len(gl) == 1 and {o.data[1] for o in trace(u, gl[0]["a"][1]) if o.kind == "arg"} == {"namespace"}
     ctx.check(ok, "C13.R2", u.path, "local-heads-from-this-namespace", "local heads are filled from get_latest_for_each_author(namespace)", u.sp)
-    # AuthorHeads::insert keeps the maximum
+    # AuthorHeads::insert keeps the maximum: evaluated (K6') on {author unknown, known with cmp(new, stored) in Less/Equal/Greater};
+    # the map's entry API (combinator and match forms) and its direct API are modelled for the one key
     i = f.body("heads::AuthorHeads::insert")
-    ctx.touch(i)
-    ok = False
-    det = ""
-    for c in f.descendants(i.path):
-        ctx.touch(c)
-        mx = [t2 for _, t2 in c.calls() if t2["f"].get("name") == "max"]
-        mn = [t2 for _, t2 in c.calls() if t2["f"].get("name") == "min"]
-        if mx and not mn:
-            # result stored through the &mut existing value
-            for bi2, si2, s in c.statements():
-                if s["k"] == "assign" and s["p"]["p"] and s["p"]["p"][0][0] == "deref" and s["p"]["l"] == 2:
-                    src = trace(c, s["r"][1]) if s["r"][0] == "use" else []
-                    if any(o.kind == "call" and o.data is mx[0] for o in trace(c, s["r"][1], through_calls=False)) if s["r"][0] == "use" else False:
-                        ok = True
-            det = "and_modify stores max(existing, new)"
-        if mn:
-            det = "uses min"
-    ctx.check(ok, "C13.R2", i.path, "insert-keeps-maximum", det or "no max() in the and_modify closure (UNSUPPORTED-FORM)", i.sp)
-    oi = [t2 for _, t2 in i.calls() if t2["f"].get("name") == "or_insert"]
-    ok = len(oi) == 1 and {o.data[1] for o in trace(i, oi[0]["a"][1]) if o.kind == "arg"} == {"timestamp"}
-    ctx.check(ok, "C13.R2", i.path, "or_insert-new-timestamp", "vacant entry gets the new timestamp", i.sp)
-    ctx.floor("C13.R2", 9)
+    ctx.touch(*f.scope(i.path, prefix="heads::"))
+    # variant indices of the map's Entry enum as this crate's MIR names them (BTreeMap: Vacant, Occupied)
+    idx = {"Vacant": 0, "Occupied": 1}
+    for x in f.scope(i.path, prefix="heads::"):
+        for bi2, si2, st in x.statements():
+            for pl in ([st["p"]] if st["k"] == "assign" else []):
+                for pr in pl["p"]:
+                    if pr[0] == "downcast" and pr[2] in ("Vacant", "Occupied"):
+                        idx[pr[2]] = pr[1]
+    rows = {}
+    for case in ("unknown", "Less", "Equal", "Greater"):
+        log = []
+
+        def oracle(kind, name, payload, site, case=case):
+            if kind in ("cmp", "eq"):
+                a2, b2 = str(name), str(payload)
+                if {a2, b2} == {"timestamp", "stored"}:
+                    o = {"Less": -1, "Equal": 0, "Greater": 1}[case]
+                    if a2 == "stored":
+                        o = -o
+                    return (o == 0) if kind == "eq" else o
+                return None
+            if kind != "call":
+                return None
+            t, args, it = payload
+            names = [it.tokname(x) for x in args]
+            full = (t["f"].get("full") or "") + (t["f"].get("path") or "")
+            known = case != "unknown"
+            if name == "entry" and "Map" in full:
+                return E.Adt("std::collections::btree_map::Entry", idx["Occupied"] if known else idx["Vacant"], {0: E.Tok("entry")})
+            if name == "and_modify":
+                if known:
+                    it.apply(args[1], [E.href("stored")])
+                return args[0]
+            if name in ("or_insert", "or_insert_with"):
+                if known:
+                    return E.href("stored")
+                v = args[1] if name == "or_insert" else it.apply(args[1], [])
+                log.append(("insert", it.tokname(v)))
+                it.heap["stored"] = it.deref_val(v)
+                return E.href("stored")
+            if name in ("get_mut", "into_mut", "get") and "OccupiedEntry" in full:
+                return E.href("stored")
+            if name == "insert" and ("VacantEntry" in full or "OccupiedEntry" in full):
+                log.append(("insert", names[1]))
+                old = it.heap.get("stored")
+                it.heap["stored"] = it.deref_val(args[1])
+                return E.href("stored") if "VacantEntry" in full else (old or E.TOP)
+            if "Map" in full and "Entry" not in full:
+                if name in ("get", "get_mut"):
+                    return E.Some(E.href("stored")) if known else E.NONE
+                if name == "contains_key":
+                    return E.Int(1 if known else 0)
+                if name == "insert":
+                    log.append(("insert", names[2] if len(names) > 2 else "?"))
+                    old = it.heap.get("stored")
+                    it.heap["stored"] = it.deref_val(args[2])
+                    return E.Some(old) if known else E.NONE
+            return None
+        heap = {"self": E.Tok("heads")}
+        if case != "unknown":
+            heap["stored"] = E.Tok("stored")
+        try:
+            ret, hp, ev = E.run(f, i.path, [E.href("self"), E.Tok("author"), E.Tok("timestamp")], heap, oracle)
+            rows[case] = E.describe(hp.get("stored"), f) if hp.get("stored") is not None else "nothing stored"
+        except E.Unsupported as e:
+            rows[case] = "UNSUPPORTED-FORM: %s" % e
+    okm = rows.get("unknown") == "timestamp" and rows.get("Less") == "stored" and rows.get("Greater") == "timestamp" and rows.get("Equal") in ("stored", "timestamp")
+    ctx.check(okm, "C13.R2", i.path, "insert-keeps-maximum",
+              "head stored for the author after insert(author, timestamp), by (author known?, cmp(timestamp, stored)): %s; spec: the new timestamp for an unknown author, otherwise the maximum" % rows, i.sp)
+    ctx.floor("C13.R2", 8)
+
+
+def eval_encode_heads(f, heads, limit):
+    """AuthorHeads::encode evaluated (K6' with abstract collections) on `heads` = [(author, timestamp)] and a size
+    limit; the size model is 1 + 40 per pair. Returns (rendered result, rendered list handed to the serialiser)."""
+    from . import feval as E, coll
+
+    def sort_key(it, v):
+        d = it.resolve(v)
+        if d and d[0] == "tuple":
+            return tuple((0, x[1]) if E.is_int(x) else (1, E.describe(x, f)) for x in d[1])
+        return ((1, E.describe(d, f)),)
+    C = coll.Collections(f, sort_key=sort_key, size_of=lambda it, items: 1 + 40 * len(items))
+    out = {}
+
+    def oracle(kind, name, payload, site):
+        if kind != "call":
+            return None
+        t, args, it = payload
+        names = [it.tokname(a) for a in args]
+        if callee_matches(t, r"heads::AuthorHeads::iter$") or (name in ("iter", "into_iter") and names and names[0] in ("heads", "heads.heads")):
+            items = []
+            for i, (a, ts) in enumerate(heads):
+                it.heap["a%d" % i] = E.Tok(a)
+                it.heap["t%d" % i] = E.Int(ts)
+                items.append(("tuple", [E.href("a%d" % i), E.href("t%d" % i)]))
+            return coll.seq("iter", items)
+        r = C.handle(kind, name, payload, site)
+        if r is not None:
+            return r
+        if name in ("to_stdvec", "to_allocvec", "to_vec") and callee_matches(t, r"postcard"):
+            out["encoded"] = coll.render(it, args[0], f)
+            return E.Ok(E.Tok("bytes"))
+        return None
+    lim = E.Some(E.Int(limit)) if limit is not None else E.NONE
+    try:
+        ret, it = E.run_it(f, "heads::AuthorHeads::encode", [E.href("self"), lim], {"self": E.Tok("heads")}, oracle)
+        return E.describe(ret, f), out.get("encoded")
+    except E.Unsupported as e:
+        return "UNSUPPORTED-FORM: %s" % e, out.get("encoded")
 
 
 def r3(ctx):
     f = ctx.facts
     e = f.body("heads::AuthorHeads::encode")
-    ctx.touch(e)
-    maps = []
-    for bi, t in e.calls():
-        fu = t["f"].get("full", "")
-        m = re.match(r"std::collections::(BTreeMap|HashMap|BTreeSet|HashSet)::<(.*?)>::(insert|entry)", fu)
-        if m:
-            maps.append((t, m.group(1), m.group(2)))
+    ctx.touch(*f.scope(e.path, prefix="heads::"))
+    tables_ = {
+        "two-authors-share-a-timestamp": [("alice", 5), ("bob", 5), ("carol", 3), ("dave", 9)],
+        "ascending": [("a", 1), ("b", 2), ("c", 3)],
+        "single": [("a", 7)],
+        "empty": [],
+    }
+    bad = []
     n = 0
-    for t, kind, kv in maps:
-        if kind.endswith("Set"):
-            key = kv
-        else:
-            key = kv.split(",")[0] if not kv.startswith("(") else kv[:kv.index(")") + 1]
-        n += 1
-        ctx.check("AuthorId" in key, "C13.R3", e.path, "intermediate-map-key-includes-author",
-                  "pairs are collected in a %s<%s>; key type %s %s" % (kind, kv, key, "" if "AuthorId" in key else
-                  "lacks the author: two authors with equal timestamps collapse into one, so encode loses a head even without a size limit"), t["sp"])
-    if n == 0:
-        ctx.ok("C13.R3", e.path, "intermediate-map-key-includes-author", "no intermediate map is used", e.sp)
-    # every (author, ts) of self reaches `items`: the push is in a loop over self.iter() or over a collection built from it
-    # truncation: pop iff serialized_size > limit
-    cm = [c for c in comparisons(e) if not mir.is_noise(c["x"]) and not (c["x"] and "debug_assert" in c["x"])]
-    sz = []
-    for c in cm:
-        def lab(op):
-            ks = set()
-            for o in trace(e, op, through_calls=False):
-                if o.kind == "call" and o.data["f"].get("name") == "branch":
-                    for o2 in trace(e, o.data["a"][0], through_calls=False):
-                        if o2.kind == "call" and o2.data["f"].get("name") == "serialized_size":
-                            ks.add("size")
-                elif o.kind == "call" and o.data["f"].get("name") == "serialized_size":
-                    ks.add("size")
-                elif o.kind == "call" and o.data["f"].get("name") == "len":
-                    ks.add("size")
-                elif o.kind == "arg" and o.data[1] == "size_limit":
-                    ks.add("limit")
-                else:
-                    ks.add("?")
-            return ks.pop() if len(ks) == 1 else None
-        la, lb = lab(c["a"]), lab(c["b"])
-        if {la, lb} == {"size", "limit"}:
-            tbl = TRUTH[c["op"]] if la == "size" else flip(TRUTH[c["op"]])
-            sz.append((c, tbl))
-    if len(sz) != 1:
-        ctx.bad("C13.R3", e.path, "truncation-compare", "expected one comparison of the serialized size with the limit, found %d (UNSUPPORTED-FORM)" % len(sz), e.sp)
-    else:
-        c, tbl = sz[0]
-        edges = follow_value(e, c["dest"]["l"])
-        pops = [bi for bi, t in e.calls() if t["f"].get("name") == "pop"]
-        t_e, f_e = edges.get("true"), edges.get("false")
-        pop_on_true = bool(t_e) and any(e.edge_dominates(t_e[0], t_e[1], p) for p in pops)
-        pop_on_false = bool(f_e) and any(e.edge_dominates(f_e[0], f_e[1], p) for p in pops)
-        popped = {o: (tbl[o] if pop_on_true else (not tbl[o] if pop_on_false else None)) for o in tbl}
-        spec = {"Less": False, "Equal": False, "Greater": True}
-        ctx.check(popped == spec, "C13.R3", e.path, "pop-iff-over-limit", "dropped(cmp(size,limit)) = %s; spec %s" % (popped, spec), c["loc"])
-        # after pop the loop is left (no further pushes)
-        if pops:
-            pushes = [bi for bi, t in e.calls() if t["f"].get("name") == "push"]
-            after = e.reachable(pops[0])
-            ctx.check(not any(p in after for p in pushes), "C13.R3", e.path, "stop-after-pop", "no push is reachable after the pop (encoding stops at the first head that does not fit)", e.loc(pops[0]))
-    # newest first: iteration in descending order (rev) over an order keyed by timestamp first
-    revs = [t for _, t in e.calls() if t["f"].get("name") in ("rev", "sort_by", "sort_unstable_by", "sort_by_key", "sort_unstable_by_key", "sort", "sort_unstable", "reverse", "into_sorted_vec")]
-    ctx.check(bool(revs), "C13.R3", e.path, "ordered-newest-first", "pairs are emitted from an ordered collection in reverse/explicitly sorted order (%s)" % [t["f"].get("name") for t in revs], e.sp)
+    for tname, heads in tables_.items():
+        newest_first = sorted(heads, key=lambda x: -x[1])
+        for limit in (None, 0, 1, 40, 41, 80, 81, 100, 121, 161, 10000):
+            n += 1
+            got, enc = eval_encode_heads(f, heads, limit)
+            k = len(heads) if limit is None else max(0, min(len(heads), (limit - 1) // 40))
+            want_ts = [ts for _, ts in newest_first[:k]]
+            want_set = None
+            if enc is not None:
+                import re as _re
+                pairs = _re.findall(r"\((\d+),(\w+)\)", enc)
+                got_ts = [int(x) for x, _ in pairs]
+                got_auth = [y for _, y in pairs]
+                # which authors: any choice among equal timestamps is fine, but no author twice and only authors of the table with their own timestamp
+                valid = len(set(got_auth)) == len(got_auth) and all((a, t) in heads for t, a in zip(got_ts, got_auth))
+            else:
+                got_ts, valid = None, False
+            if not (got == "Ok(bytes)" and got_ts == want_ts and valid):
+                bad.append("%s, limit %s: %s encodes %s; spec: the %d newest heads, newest first (timestamps %s), each author once" % (tname, limit, got, enc, k, want_ts))
+    ctx.check(not bad, "C13.R3", e.path, "bounded-newest-first-encoding",
+              "encode evaluated on %d (heads table, size limit) cells with the size model 1 + 40 per pair; deviating: %s; spec: all heads when unlimited (authors sharing a timestamp are all kept), "
+              "otherwise the longest newest-first prefix that fits the limit" % (n, bad[:3]), e.sp)
+    ctx.check(n >= 40, "C13.R3", e.path, "bounded-newest-first-encoding.cells", "%d cells" % n, e.sp)
     # decode inserts every decoded pair
     d = f.body("heads::AuthorHeads::decode")
     ctx.touch(d)
-    ins = [t for _, t in d.calls() if callee_matches(t, r"heads::AuthorHeads::insert$")]
+    ins = [t for x in f.scope(d.path, prefix="heads::") for _, t in x.calls() if callee_matches(t, r"heads::AuthorHeads::insert$")]
     ctx.check(len(ins) == 1, "C13.R3", d.path, "decode-inserts-each-pair", "decode feeds every decoded pair to insert", d.sp)
-    ctx.floor("C13.R3", 5)
+    ctx.floor("C13.R3", 3)
 
 
 def r4(ctx):
